@@ -4,6 +4,7 @@ in-use set an arbitrary z3 array)."""
 import re
 import z3
 from .framework import *
+from . import ber
 from .lane import Lane, run_lane
 from mirsym.values import *
 from mirsym.engine import TRUE, FALSE
@@ -109,6 +110,83 @@ class AllocStepR(AllocStep):
         return ('ret', {'id': z3.BitVecVal(v['id'], 32), 'last': z3.BitVecVal(v['last'], 32), 'arr': arr, 'hits': 0})
 
 
+
+class RequestIds(Lane):
+    """the ID a request actually leaves the client with: Ldap::op_call runs from its coroutine MIR for every kind of
+    operation (single-result, search, Abandon, Unbind) from an arbitrary counter / in-use pre-state; the ID put on
+    the request channel must lie in 1..2^31-1 and must not belong to an operation still outstanding"""
+    name = 'C05.request_ids'
+    KINDS = ['Single', 'Search', 'Abandon', 'Unbind']
+
+    def __init__(self, ctx, K):
+        Lane.__init__(self, ctx, K); self.K = K
+
+    def inputs(self):
+        c = self.c
+        d = {'kind': self.KINDS[c.choose(4, 'kind')], 'last': z3.BitVec('last', 32), 'arr': z3.Array('inuse', z3.BitVecSort(32), z3.BoolSort())}
+        c.assume(z3.And(d['last'] >= 0, d['last'] <= MAX))
+        return d
+
+    def execute(self, d):
+        from .streams import mk_handle, poll
+        from mirsym.models_async import channel
+        c = self.c
+        ld, tx, stx = mk_handle(c)
+        zs = ZSet(d['arr'], self.K)
+        ld.fields['msgmap'][0][0][0] = d['last']; ld.fields['msgmap'][0][0][1] = zs
+        itx, _ = channel('items')
+        op = {'Single': EnumV('LdapOp', 'Single'), 'Search': EnumV('LdapOp', 'Search', [itx]), 'Abandon': EnumV('LdapOp', 'Abandon', [z3.BitVec('abid', 32)]), 'Unbind': EnumV('LdapOp', 'Unbind')}[d['kind']]
+        ack = Ok(Tup([EnumV('Tag', 'Null', [StructV('Null', [('id', bv(5, 64)), ('class', ber.cls(0)), ('inner', UNIT)])]), VecV([])]))
+
+        def send_env(ctx, t, val):
+            t.sent.append(val); return Ok(UNIT)
+        c.env = {'send': send_env, 'recv_oneshot': lambda ctx, f: ack, 'timeout': lambda ctx, f: Ok(ack)}
+        try:
+            r = poll(c, c.run_fn('Ldap::op_call', [ld, op, EnumV('Tag', 'StructureTag', [ber.prim(1, 10, ber.bstr('dc=x'))])]))
+        finally:
+            c.env = {}
+        return {'poll': r, 'queued': list(tx.sent), 'zs': zs, 'ld': ld}
+
+    def oracle(self, d, out):
+        if out[0] == 'panic': return [('no panic (no overflow at the wrap-around point)', FALSE)]
+        o = out[1]
+        if len(o['queued']) != 1: return [('exactly one request is queued', FALSE)]
+        rid = o['queued'][0][0]
+        obs = [('the request leaves with an ID in 1..2^31-1', z3.And(rid >= 1, rid <= MAX)),
+               ('the ID differs from every ID still in use (whatever the operation: also Abandon and Unbind)', z3.Not(z3.Select(d['arr'], rid)))]
+        if d['kind'] in ('Single', 'Search'):
+            obs.append(('the ID of an operation that awaits a response is reserved from now on', z3.Select(o['zs'].arr, rid)))
+        obs.append(('the handle reports that ID as its last one', o['ld'].fields['last_id'] == rid))
+        return obs
+
+    def case(self, cinp):
+        op = {'Single': {'op': 'delete', 'dn': 'dc=x'}, 'Search': {'op': 'search', 'base': 'dc=x', 'scope': 2, 'filter': '(a=b)', 'attrs': []}, 'Abandon': {'op': 'abandon', 'msgid': 1}, 'Unbind': {'op': 'unbind'}}[cinp['kind']]
+        return dict({'cmd': 'async:request', 'last': AllocStepR.s32(conc(cinp['last'])), 'inuse': cinp['inuse']}, **op)
+
+    def native_outcome(self, cinp, j):
+        if j['outcome'] == 'panic': return native_panic(j)
+        v = j['value']
+        if v.get('r') != 'queued': return ('ret', {'poll': None, 'queued': [], 'zs': None, 'ld': None})
+        arr = z3.K(z3.BitVecSort(32), FALSE)
+        for x in v['reserved']: arr = z3.Store(arr, z3.BitVecVal(x, 32), TRUE)
+        zs = ZSet(arr, 1)
+        ld = StructV('Ldap', [('last_id', z3.BitVecVal(v['id'], 32))])
+        return ('ret', {'poll': None, 'queued': [Tup([z3.BitVecVal(v['id'], 32)])], 'zs': zs, 'ld': ld})
+
+    def summary(self, out, model=None):
+        if out[0] == 'panic': return {'panic': out[1].msg}
+        o = out[1]
+        if not o['queued']: return {'queued': 0}
+        rid = o['queued'][0][0]
+        return {'queued': 1, 'id': ev(model, rid) if model is not None else conc(rid)}
+
+    def in_summary(self, d, model=None):
+        if 'inuse' in d: return {'kind': d['kind'], 'last': AllocStepR.s32(conc(d['last'])), 'inuse': d['inuse']}
+        return {'kind': d['kind'], 'last': ev(model, d['last']) if model is not None else None}
+
+    def regions(self, d, out):
+        return [d['kind']]
+
 def conc_inputs(model, inp, K):
     """model -> concrete pre-state: the IDs among the K+2 cyclic successors of last that the model marks in use"""
     last = ev(model, inp['last'])
@@ -131,7 +209,9 @@ _orig_conc_val = _lane.conc_val
 
 def _conc_val(model, v):
     if isinstance(v, dict) and 'arr' in v and 'last' in v and z3.is_array(v['arr']):
-        return conc_inputs(model, v, 20)
+        r = conc_inputs(model, v, 20)
+        if 'kind' in v: r['kind'] = v['kind']
+        return r
     return _orig_conc_val(model, v)
 
 
@@ -178,6 +258,8 @@ def body(chk):
     K = 4 if quick else 16
     run_lane(chk, AllocStepR, (K,), bounds={'counter': 'all of 0..=2^31-1 (symbolic)', 'in-use set': 'arbitrary (z3 array)', 'consecutive occupied successors': f'< {K + 1} (beyond: assumed free, recorded as cut)'},
              selftest=False, need_regions=('skipped-0', 'skipped-1', f'skipped-{K}'))
+    run_lane(chk, RequestIds, (2 if quick else 4,), bounds={'operation kinds': RequestIds.KINDS, 'counter': 'all of 0..=2^31-1', 'in-use set': 'arbitrary (z3 array)', 'consecutive occupied successors': f'<= {2 if quick else 4}'},
+             selftest=False, need_regions=tuple(RequestIds.KINDS))
     lock_discipline(chk)
     from . import driver
     run_lane(chk, driver.DriverStep, (('C05', 2, 1) if quick else ('C05', 4, 3)), bounds={'driver step': 'release sites: result delivery (receiver alive or gone), scrub, Abandon, search Done / dead item receiver; every other entry of the in-use set unchanged'}, selftest=False,
